@@ -14,9 +14,11 @@ EXPLANATION = ('(D1) set_offset copies days and nanoseconds and stores the given
                'depends on the raw fields or the offset except through that value; (D3) as_offset builds the instant I - 1e9*offset and stores the '
                'offset, so the local reading is unchanged; (D4) Offset::from_seconds/from_hms accept exactly [-86_399, 86_399] / '
                '[-23,23]x[0,59]^2, store seconds == +/-(3600h+60m+s), resolve returns the stored value and resolve_hms decomposes it exactly; '
-               '(D5) no getter can panic when the value is at least one day inside the range ends. Getter numerics beyond the shift are not decided.')
+               '(D5) no getter can panic when the value is at least one day inside the range ends; (D6) the zone fields of format (x/X runs of '
+               '1..5 letters, Time and DateTime part formatters) print the sign of the carried offset and |offset| split into hours, minutes, '
+               'seconds on every output path. Getter numerics beyond the shift are not decided.')
 META = {
-    'technique': 'static analysis: MIR abstract interpretation; exact affine identity of the shifted instant, flows-only-through dependence on the definition DAG, passthrough by value identity',
+    'technique': 'static analysis: MIR abstract interpretation; exact affine identity of the shifted instant, flows-only-through dependence on the definition DAG, passthrough by value identity; symbolic output text of the zone field per pattern run',
     'note': 'trusted: rustc MIR, vf/models.py. Getters at the two extreme representable days are covered by the known finding C10:EDGE (local instant outside the range).',
 }
 
@@ -294,3 +296,34 @@ def check(ctx):
                         f'{o.fn}: a getter can panic for a value on the first/last representable day whose local time lies outside the range '
                         f'(entries: {len(o.entries)})', {'entries': sorted(o.entries)})
     ctx.cov['trusted_base'] += ['rustc MIR of the dev profile', 'vf/models.py rows: ' + ', '.join(sorted(I.models_used))[:400]]
+
+    # ---- D6: the zone fields of format (x / X runs of 1..5) show the offset the value carries: the sign is the sign of the offset,
+    # the fields are |offset| / 3600, |offset| % 3600 / 60, |offset| % 60 (the zone rule of C11, applied here to the clause
+    # "every formatted field equals that of the instant shifted by the offset"; run last: a new Numeric resets the value tables)
+    from . import C11
+    R = C11.Runner(ctx)
+    n = ok = 0
+    for api, partfn, kind in C11.TYPES:
+        if kind == 'date':
+            continue
+        if not ctx.anchor(R.N.facts.bodies, partfn, 'C10-D6 part formatter'):
+            continue
+        for letter in 'xX':
+            for k in range(1, 6):
+                pat = letter * k
+                outs = R.run(partfn, pat)
+                n += 1
+                bad = None if outs else 'no output path'
+                for st, pieces, amap in outs or ():
+                    try:
+                        C11.check_zone(letter, k, C11.env_of(R, st, amap), st, pieces, outs)
+                    except C11.Mismatch as e:
+                        bad = str(e)
+                        break
+                if bad:
+                    ctx.finding(f'C10:ZONE|{partfn}|{pat}', 'C10-D6 zone fields show the offset', R.N.facts.bodies[partfn]['span'],
+                                f'{api}: pattern {pat!r}: {bad}')
+                else:
+                    ok += 1
+    ctx.rule('C10-D6 zone fields (x/X, 1..5 letters, Time and DateTime) print the sign and |offset| split of the carried offset', n, ok, floor=20)
+
